@@ -1,23 +1,63 @@
 /-
   C02 — The parser accepts exactly the packets that are well-formed under its policy.
-  Proved so far (the hub of the full equivalence): the compressed-name validator accepts a name
-  at `off` exactly when the declarative relation `ValidName` of Spec/Wire.lean holds, and returns
-  the position after the name as written.
+  `WF` (Spec/Wire.lean) states the policy on the bytes, independently of the validator's control
+  flow: names by the inductive relations `Labels`/`NameAt` (pointers strictly backward from the start
+  of the segment they are in, at most 16, never to a root label; labels ≤ 63, total ≤ 255, no control
+  characters, dots or backslashes), DNAME targets by `PlainName`, per-type data by `RDataOK`, OPT by
+  `OptionsTile`, sections by `RRs`.
 -/
-import DnsModel.Lemmas.NameComplete
+import DnsModel.Lemmas.ParseSpec
 namespace Dns.C02
 open Dns
+
+/-- **C02.** For every byte string: parsing succeeds if and only if the packet is well-formed. -/
+theorem parse_ok_iff_wf (p : Bytes) : (∃ v, parse p = .ok v) ↔ WF p := Dns.parse_ok_iff_wf p
+
+/-- nothing well-formed is turned away -/
+theorem wf_accepted (p : Bytes) (h : WF p) : ∃ v, parse p = .ok v := (parse_ok_iff_wf p).2 h
+
+/-- anything accepted is well-formed (what the unchecked readers rely on) -/
+theorem accepted_wf (p : Bytes) (v : View) (h : parse p = .ok v) : WF p := (parse_ok_iff_wf p).1 ⟨v, h⟩
 
 /-- the validator's verdict on a name is the declarative one, in both directions -/
 theorem name_ok_iff_valid (p : Bytes) (off e : Nat) :
     checkCompressedName p off = .ok e ↔ ∃ ls, ValidName p off ls e :=
   checkCompressedName_ok_iff p off e
 
-/-- non-vacuity: a two-label name reached through a pointer is valid, a self-pointer is not -/
-example : checkCompressedName [3, 119, 119, 119, 0, 0xc0, 0] 5 = .ok 7 := by decide
-example : ¬ ∃ ls, ValidName [0xc0, 0] 0 ls 2 := by
-  intro h
-  have := (name_ok_iff_valid [0xc0, 0] 0 2).2 h
-  revert this; decide
+/-- DNAME targets: pointer-free, any bytes -/
+theorem plain_name_ok_iff (p : Bytes) (off e : Nat) :
+    checkUncompressedName p off = .ok e ↔ PlainName p off e :=
+  checkUncompressedName_ok_iff p off e
+
+/-! Non-vacuity: a response with a compressed answer and an OPT record is well-formed; one packet per
+clause of the policy is not (64-byte label type, pointer to a root label, trailing byte, two OPTs,
+answer in a query, A record of 5 bytes). -/
+def okPacket : Bytes :=
+  [0,7,0x80,0, 0,1, 0,1, 0,0, 0,1,  1,97,0, 0,1, 0,1,  0xc0,12, 0,1, 0,1, 0,0,0,9, 0,4, 1,2,3,4,
+   0, 0,41, 4,0xd0, 0,0,0,0, 0,6, 0,10,0,2,7,7]
+
+example : WF okPacket := (parse_ok_iff_wf okPacket).1 (by
+  have : (parse okPacket).isOk = true := by decide
+  cases h : parse okPacket with
+  | ok v => exact ⟨v, rfl⟩
+  | err e => simp [h, Res.isOk] at this
+  | panic => simp [h, Res.isOk] at this
+  | diverge => simp [h, Res.isOk] at this)
+
+private theorem not_wf_of_err {p : Bytes} {e : Err} (h : parse p = .err e) : ¬ WF p := by
+  intro hw
+  obtain ⟨v, hv⟩ := (parse_ok_iff_wf p).2 hw
+  rw [h] at hv; simp at hv
+
+example : ¬ WF [0,7,0,0, 0,1, 0,0, 0,0, 0,0,  0x40,97,0, 0,1, 0,1] := not_wf_of_err (e := .invalidName) (by decide)
+example : ¬ WF [0,7,0,0, 0,1, 0,0, 0,0, 0,1,  1,97,0, 0,1, 0,1,  0xc0,14, 0,1, 0,1, 0,0,0,0, 0,0] :=
+  not_wf_of_err (e := .invalidName) (by decide)
+example : ¬ WF [0,7,0,0, 0,1, 0,0, 0,0, 0,0,  1,97,0, 0,1, 0,1, 0] := not_wf_of_err (e := .invalidPacket) (by decide)
+example : ¬ WF [0,7,0,0, 0,1, 0,0, 0,0, 0,2,  1,97,0, 0,1, 0,1,  0, 0,41, 2,0, 0,0,0,0, 0,0,  0, 0,41, 2,0, 0,0,0,0, 0,0] :=
+  not_wf_of_err (e := .invalidPacket) (by decide)
+example : ¬ WF [0,7,0,0, 0,1, 0,1, 0,0, 0,0,  1,97,0, 0,1, 0,1,  0xc0,12, 0,1, 0,1, 0,0,0,9, 0,4, 1,2,3,4] :=
+  not_wf_of_err (e := .invalidPacket) (by decide)
+example : ¬ WF [0,7,0x80,0, 0,1, 0,1, 0,0, 0,0,  1,97,0, 0,1, 0,1,  0xc0,12, 0,1, 0,1, 0,0,0,9, 0,5, 1,2,3,4,5] :=
+  not_wf_of_err (e := .invalidPacket) (by decide)
 
 end Dns.C02
